@@ -22,7 +22,7 @@ for d in sorted(glob.glob(os.path.join(ROOT, "seeded", "C*-*"))):
     note = ""
     np = os.path.join(d, "strengthened.txt")
     if os.path.exists(np):
-        note = open(np).read().strip().replace("\n", " ")
+        note = open(np).read().strip().replace("\n", " ").replace("|", "/")[:700]
     files = ", ".join(meta.get("files", []))[:80] if isinstance(meta.get("files"), list) else str(meta.get("files", ""))[:80]
     clause = str(meta.get("clause", ""))[:160].replace("|", "/").replace("\n", " ")
     needs = str(meta.get("needs", ""))[:260].replace("|", "/").replace("\n", " ")
